@@ -25,6 +25,8 @@ const (
 	VerifSiteWcAfterLock
 	VerifSiteWcAfterUnlock
 	VerifSiteWcStoreState
+	VerifSiteMutexCountLoad
+	VerifSiteMutexStateLoad
 )
 
 func verifYield(int) {}
